@@ -356,7 +356,8 @@ fn bcf_roundtrip(tier: &str) -> Result<String, String> {
     }
     let _ = std::panic::take_hook();
     // vacuity guard: every kind must have records that actually went through the writer and the reader
-    for (k, (okc, _)) in &per_kind { if *okc == 0 && k != "genotype-large-allele" { return Err(format!("UNDECIDED: no record of kind {k} was accepted by the writer — the harness would be vacuous")); } }
+    // (only when nothing failed: a kind whose every record FAILS the round trip is a finding, not vacuity)
+    if fails.is_empty() { for (k, (okc, _)) in &per_kind { if *okc == 0 && k != "genotype-large-allele" { return Err(format!("UNDECIDED: no record of kind {k} was accepted by the writer — the harness would be vacuous")); } } }
     if fails.is_empty() { Ok(format!("\"cases\":{cases},\"refused_by_writer\":{refused},\"round_tripped_per_kind\":{{{}}}", per_kind.iter().map(|(k, (a, b))| format!("\"{k}\":[{a},{b}]")).collect::<Vec<_>>().join(","))) }
     else { Err(format!("FAILURES\n{}", fails.values().cloned().collect::<Vec<_>>().join("\n"))) }
 }
@@ -388,6 +389,8 @@ fn bam_roundtrip(tier: &str) -> Result<String, String> {
     for n in [1usize, 2, 3, 15, 16, 17, 255, 256] { lines.push(("seq".into(), rec("s", 0, "sq0", 3, 9, &format!("{n}M"), "*", 0, 0, &seq(n), &qual(n), ""))); lines.push(("seq".into(), rec("s", 0, "sq0", 3, 9, &format!("{n}M"), "*", 0, 0, &seq(n), "*", ""))); lines.push(("seq".into(), rec("s", 0, "sq0", 3, 9, "*", "*", 0, 0, "*", "*", ""))); }
     // cigar: every op kind, long lengths on ops that consume no read base, zero-read-length cigars
     lines.push(("cigar".into(), rec("c", 0, "sq0", 10, 9, "1H2S3M1I2M4D1M5N1M1P1=1X2S3H", "*", 0, 0, &seq(14), &qual(14), "")));
+    lines.push(("cigar".into(), rec("c", 0, "sq0", 100000, 9, "1H2S2I1P", "*", 0, 0, "ACGT", "IIII", "")));   // a placed record whose CIGAR consumes no reference base
+    lines.push(("cigar".into(), rec("c", 77, "sq0", 100000, 0, "*", "=", 100000, 0, "ACGT", "IIII", "")));      // an unmapped read placed at its mate
     for l in [1u32, 15, 16, 255, 65535, 65536, 268435455] { lines.push(("cigar".into(), rec("c", 0, "sq0", 10, 9, &format!("1M{l}D1M{l}N1M"), "*", 0, 0, "ACG", "III", ""))); }
     // more than 65535 operations: the CG placeholder
     for n in [65536usize, 65535, 65537] { let c: String = (0..n).map(|i| if i % 2 == 0 { "1M" } else { "1I" }).collect(); lines.push(("cigar-overflow".into(), rec("g", 0, "sq0", 10, 9, &c, "*", 0, 0, &seq(n), &qual(n), "NM:i:1"))); lines.push(("cigar-overflow-no-seq".into(), rec("h", 0, "sq0", 10, 9, &c, "*", 0, 0, "*", "*", ""))); if tier != "thorough" { break; } }
@@ -458,7 +461,30 @@ fn bam_roundtrip(tier: &str) -> Result<String, String> {
             }
         }
     }
-    if accepted.len() < 40 { return Err("UNDECIDED: fewer than 40 records were accepted by the writer — the harness would be vacuous".into()); }
+    // (d) the stored bin of every record (raw walk of the writer's bytes, independent of the library): SAMv1 section 4.2 — reg2bin(pos, end) of
+    // the 0-based half-open span, a placed record without reference span (CIGAR '*', or only S/I/H/P) counting as one base; 4680 = reg2bin(-1, 0)
+    // for an unplaced one.  Only stated for coordinates below 2^29.
+    {
+        fn reg2bin(beg: i64, end: i64) -> u16 { let end = end - 1;
+            if beg >> 14 == end >> 14 { return (((1 << 15) - 1) / 7 + (beg >> 14)) as u16; } if beg >> 17 == end >> 17 { return (((1 << 12) - 1) / 7 + (beg >> 17)) as u16; }
+            if beg >> 20 == end >> 20 { return (((1 << 9) - 1) / 7 + (beg >> 20)) as u16; } if beg >> 23 == end >> 23 { return (((1 << 6) - 1) / 7 + (beg >> 23)) as u16; }
+            if beg >> 26 == end >> 26 { return (((1 << 3) - 1) / 7 + (beg >> 26)) as u16; } 0 }
+        let u = |p: usize| -> Option<usize> { Some(u32::from_le_bytes(data.get(p..p + 4)?.try_into().ok()?) as usize) };
+        let walk = || -> Option<Vec<usize>> { let mut p = 8 + u(4)?; let n = u(p)?; p += 4; for _ in 0..n { p += 4 + u(p)?; p += 4; } let mut m = Vec::new(); while p < data.len() { m.push(p); p += 4 + u(p)?; } Some(m) };
+        match walk() {
+            Some(starts) if starts.len() == accepted.len() => {
+                let mut checked = 0;
+                for (i, ((kind, a), p)) in accepted.iter().zip(starts.iter()).enumerate() {
+                    let stored = u16::from_le_bytes([data[p + 14], data[p + 15]]);
+                    let expected = match a.alignment_start() { None => Some(4680u16), Some(s) => { let beg = usize::from(s) as i64 - 1; let span: i64 = a.cigar().as_ref().iter().filter(|op| op.kind().consumes_reference()).map(|op| op.len() as i64).sum(); let end = beg + span.max(1); if end <= (1 << 29) { Some(reg2bin(beg, end)) } else { None } } };
+                    if let Some(e) = expected { checked += 1; if stored != e { fails.entry(format!("bin [{kind}] span {}", if a.alignment_end().is_some() && a.cigar().as_ref().iter().any(|op| op.kind().consumes_reference()) { "positive" } else { "zero" })).or_insert_with(|| format!("bam round trip [{kind}]: the stored bin of a record is not reg2bin of its span; first such record #{i} ({}): stored {stored}, the specification gives {e}", short(a))); } }
+                }
+                if checked < 30 && fails.is_empty() { return Err("UNDECIDED: fewer than 30 stored bins were checked".into()); }
+            }
+            _ => { fails.entry("bin walk".into()).or_insert_with(|| "bam round trip: an independent walk of the writer's output does not find one record per accepted record".into()); }
+        }
+    }
+    if accepted.len() < 40 && fails.is_empty() { return Err("UNDECIDED: fewer than 40 records were accepted by the writer — the harness would be vacuous".into()); }
     if fails.is_empty() { Ok(format!("\"records_written\":{},\"refused_by_writer\":{refused},\"invalid_records_refused\":{bad_refused}", accepted.len())) }
     else { Err(format!("FAILURES\n{}", fails.values().cloned().collect::<Vec<_>>().join("\n"))) }
 }
